@@ -6,9 +6,11 @@ import (
 	"context"
 	"errors"
 	"fmt"
+	"runtime"
 	"sort"
 	"strings"
 	"sync"
+	"sync/atomic"
 	"testing"
 	"time"
 
@@ -494,6 +496,148 @@ func TestVerifC19(t *testing.T) {
 		out.Emit(verifh.Case{ID: id, Coq: verifh.App("CProcess", verifh.List(cm), verifh.List(obs)),
 			Input: in, Observed: obsJ, Tags: []string{"stream:process"}, ImplViolation: viol})
 	}
+
+	// ---- (6) Subscribe concurrent with a running notify (no race detector needed): LAST, so that every other
+	// case has been written should the runtime abort the binary ("concurrent map writes")
+	rounds := 2
+	if verifh.Thorough() {
+		rounds = 10
+	}
+	for k := 0; k < rounds; k++ {
+		id := fmt.Sprintf("c19-stress-%d", k)
+		if !out.Wants(id) {
+			continue
+		}
+		viol, stats := c19Stress(verifh.NewRand(verifh.Seed(), id))
+		out.Emit(verifh.Case{ID: id, Input: map[string]any{"round": k, "batch_interfaces": c19StressIfaces},
+			Observed: stats, Tags: []string{"stream:subscribe-during-notify"}, ImplViolation: viol})
+		if viol != "" {
+			break // the goroutines of a blocked watcher stay behind; the verdict is decided
+		}
+	}
+}
+
+const c19StressIfaces = 256
+
+// c19Stress: the watch hook delivers batches touching 256 interfaces back to back (so the watcher is inside notify
+// practically all the time) while four goroutines call Subscribe: two in a tight loop on interface names that
+// did not exist before (every call inserts into the watcher's maps), two at a slower pace on interfaces the
+// batches touch.  "Notification never blocks the watcher; subscribing concurrently with notification is safe":
+// every Subscribe returns, the hook keeps delivering, Watch ends and closes every channel, all within a watchdog
+// of real time.  A Subscribe that arrives while notify holds the lock must simply wait for that notify call.
+func c19Stress(r *verifh.Rand) (viol string, stats map[string]any) {
+	w := NewWatcher()
+	// subscribers of the touched interfaces from before the watch: their buffers fill up, the rest is dropped
+	var pre []<-chan Change
+	batch := changeSet{}
+	for i := 0; i < c19StressIfaces; i++ {
+		name := fmt.Sprintf("vs%d", i)
+		batch[name] = []Change{Change(verifh.Pick(r, c19States))}
+		if i%4 == 0 {
+			pre = append(pre, w.Subscribe(name, Change(127)))
+		}
+	}
+	var (
+		subsDone            = make(chan struct{})
+		hookDone            = make(chan struct{})
+		watchDone           = make(chan struct{})
+		roundsN, subscribed atomic.Int64
+		wg                  sync.WaitGroup
+		mu                  sync.Mutex
+		during              []<-chan Change
+	)
+	w.watch = func(_ context.Context, notify func(changeSet)) error {
+		defer close(hookDone)
+		for i := 0; ; i++ {
+			if i >= 50 {
+				select {
+				case <-subsDone:
+					return nil
+				default:
+				}
+			}
+			notify(batch)
+			roundsN.Add(1)
+			runtime.Gosched()
+		}
+	}
+	go func() {
+		defer close(watchDone)
+		_ = w.Watch(context.Background())
+	}()
+	for g := 0; g < 4; g++ {
+		wg.Add(1)
+		go func(g int) {
+			defer wg.Done()
+			n := 3000
+			if g >= 2 {
+				n = 150
+			}
+			for i := 0; i < n; i++ {
+				if g < 2 {
+					w.Subscribe(fmt.Sprintf("quiet%d-%d", g, i), Change(1+i%127))
+					runtime.Gosched()
+				} else {
+					ch := w.Subscribe(fmt.Sprintf("vs%d", (i*7+g)%c19StressIfaces), Change(127))
+					mu.Lock()
+					during = append(during, ch)
+					mu.Unlock()
+					time.Sleep(10 * time.Microsecond)
+				}
+				subscribed.Add(1)
+			}
+		}(g)
+	}
+	go func() { wg.Wait(); close(subsDone) }()
+
+	watchdog := time.After(c19Patience)
+	stats = map[string]any{}
+	fill := func() {
+		stats["notify_rounds"], stats["subscribe_calls_returned"] = roundsN.Load(), subscribed.Load()
+	}
+	for _, step := range []struct {
+		c    <-chan struct{}
+		what string
+	}{
+		{subsDone, "Subscribe did not return while the watcher was delivering notifications (watcher and subscribers blocked)"},
+		{hookDone, "notify did not return: the watcher is blocked"},
+		{watchDone, "Watch did not return after the watch function ended"},
+	} {
+		select {
+		case <-step.c:
+		case <-watchdog:
+			fill()
+			return fmt.Sprintf("%s after %d notify rounds and %d Subscribe calls", step.what, roundsN.Load(), subscribed.Load()), stats
+		}
+	}
+	fill()
+	mu.Lock()
+	all := append(append([]<-chan Change{}, pre...), during...)
+	mu.Unlock()
+	for _, ch := range all {
+		n := 0
+		for {
+			var (
+				v  Change
+				ok bool
+			)
+			select {
+			case v, ok = <-ch:
+			case <-watchdog:
+				return "a channel subscribed before the end of the watch was never closed", stats
+			}
+			if !ok {
+				break
+			}
+			if n++; n > 8 {
+				return "more than 8 buffered changes", stats
+			}
+			if v == 0 || v&(v-1) != 0 || v > 64 {
+				return fmt.Sprintf("a subscriber received the value %d, which no batch contained", v), stats
+			}
+		}
+	}
+	return "", stats
 }
 
 // c19Random builds one random history: a few interfaces and subscribers (some subscribing in
